@@ -14,6 +14,7 @@ structure Std (c : Consts) : Prop where
   tolPos : 0 < c.orthoTol
   repLo : c.repLo = 0
   repHi : c.repHi = 1
+  prec : c.boxPrecedence = .explicitFirst
 
 /-- exact orthogonality of the box vectors -/
 def OrthoBox (b : Box) : Prop := b.r0.dot b.r1 = 0 ∧ b.r0.dot b.r2 = 0 ∧ b.r1.dot b.r2 = 0
